@@ -13,7 +13,6 @@ use lalrpop::normalize;
 use lalrpop::parser;
 use lalrpop::session::Session;
 use lalrpop::tls::Tls;
-use lalrpop_util_shim::describe_parse_error;
 use std::collections::BTreeSet;
 use std::path::PathBuf;
 use std::rc::Rc;
@@ -35,7 +34,6 @@ impl Default for LoadOptions {
 pub struct Loaded {
     pub path: String,
     pub text: String,
-    pub session: Rc<Session>,
     /// parse tree exactly as produced by `parser::parse_grammar`
     pub raw: pt::Grammar,
     /// parse tree after `normalize::resolve` (identifiers classified; macros NOT expanded)
@@ -108,7 +106,7 @@ pub fn load(path: &str, opts: &LoadOptions) -> Result<Loaded, String> {
             return Err(format!(
                 "{}: grammar parse error: {}",
                 path,
-                describe_parse_error(&text, &e)
+                describe_parse_error(&e)
             ))
         }
     };
@@ -133,7 +131,6 @@ pub fn load(path: &str, opts: &LoadOptions) -> Result<Loaded, String> {
     Ok(Loaded {
         path: path.to_string(),
         text,
-        session,
         raw,
         resolved,
         lowered,
@@ -155,14 +152,7 @@ pub fn algorithm_name(g: &r::Grammar) -> &'static str {
     }
 }
 
-mod lalrpop_util_shim {
-    use lalrpop::parser::ParseError;
-
-    pub fn describe_parse_error(text: &str, e: &ParseError<'_>) -> String {
-        // `lalrpop_util::ParseError` is re-exported through the alias; avoid naming the crate.
-        let dbg = format!("{:?}", e);
-        let short: String = dbg.chars().take(300).collect();
-        let _ = text;
-        short
-    }
+fn describe_parse_error(e: &parser::ParseError<'_>) -> String {
+    let dbg = format!("{:?}", e);
+    dbg.chars().take(300).collect()
 }
